@@ -89,6 +89,29 @@ func prepare(repo, verif string) (*load.Program, error) {
 				}
 			}
 		}
+		if ur, ns := load.UnrollStepTables(prog.Pkgs, read); len(ur) > 0 {
+			saved := map[string][]byte{}
+			for k, v := range ur {
+				if old, ok := overlay[k]; ok {
+					saved[k] = old
+				}
+				overlay[k] = v
+			}
+			if next, lerr := load.LoadOverlay(repo, overlay); lerr == nil {
+				next.RawID = kit.RawFuncID
+				prog = next
+				notes = append(notes, ns...)
+			} else {
+				notes = append(notes, fmt.Sprintf("unrolling of step tables abandoned (%v)", lerr))
+				for k := range ur {
+					if old, ok := saved[k]; ok {
+						overlay[k] = old
+					} else {
+						delete(overlay, k)
+					}
+				}
+			}
+		}
 		for round := 0; round < 4; round++ {
 			kit.Canonical = map[string]string{}
 			rn := prog.DetectRenames(table, kit.RawFuncID, kit.CallID)
